@@ -126,6 +126,8 @@ fn exec_two(sc: &Scn, render: bool) -> RunOutput {
     let mut wit = 0u64;
     let mut seen_ev = 0usize;
     let mut horizon = false;
+    let mut frames_seen = 0usize;
+    let mut half_released: Vec<(usize, u32)> = Vec::new();
     loop {
         if w.sim.steps >= 4000 {
             horizon = true;
@@ -166,6 +168,21 @@ fn exec_two(sc: &Scn, render: bool) -> RunOutput {
             }
         }
         seen_ev = obs.events.len();
+        // a Connect put on the wire by this very step whose id the OTHER side still holds an established flow on:
+        // the proposer released the id (its application dropped the stream) while the peer has not; frames of the old
+        // flow may cross the Connect (finding F1, see DESIGN.md 9.4)
+        if mon.frames.len() > frames_seen {
+            for (side, f) in &mon.frames[frames_seen..] {
+                if let RFrame::Connect { id, .. } = f {
+                    if let Some(peer) = w.mux[1 - *side].as_ref() {
+                        if peer.verif_flow_digest().iter().any(|d| d.id == *id && d.kind == 1) {
+                            half_released.push((*side, *id));
+                        }
+                    }
+                }
+            }
+            frames_seen = mon.frames.len();
+        }
         // an endpoint never proposes an id its application still holds a stream on
         if let Some((side, RFrame::Connect { id, .. })) = mon.frames.last() {
             if matches!(step, Step::Poll(_)) {
@@ -315,6 +332,16 @@ fn exec_two(sc: &Scn, render: bool) -> RunOutput {
             push_viol(&mut viol, "task.ended", format!("connection task {side} ended: {:?}", w.task_result[side].borrow()));
         }
     }
+    if let (Some((side, id)), false) = (half_released.first(), viol.is_empty()) {
+        // Everything that goes wrong in such an execution is one and the same finding; report it under one specific key
+        // (crashes and hangs keep their own keys) so that the known-findings entry cannot hide anything else.
+        let consequences: Vec<String> = viol.iter().filter(|(k, _)| !matches!(k.as_str(), "panic" | "task.ended" | "livelock")).map(|(k, _)| k.clone()).collect();
+        let first = viol.iter().find(|(k, _)| !matches!(k.as_str(), "panic" | "task.ended" | "livelock")).map(|(_, d)| d.clone()).unwrap_or_default();
+        viol.retain(|(k, _)| matches!(k.as_str(), "panic" | "task.ended" | "livelock"));
+        if !consequences.is_empty() {
+            push_viol(&mut viol, &format!("reuse.half-released-id{}", if std::env::var("VERIF_F1_DETAIL").is_ok() { format!(".{}", consequences.join("+")) } else { String::new() }), format!("side {side} proposed flow id {id:#x} again after releasing it while side {} still held the old flow on that id; frames of the old flow that crossed the Connect were taken for the new request (consequences: {consequences:?}; first: {first})", 1 - side));
+        }
+    }
     let mut h = Fnv::default();
     for e in &obs.events {
         h.str(&format!("{e:?}"));
@@ -437,10 +464,31 @@ pub fn run(args: &Args) -> Report {
         let label = format!("{} | retries={} rngA={:?} rngB={:?} rwnd={:?} requests={}", sc.name, sc.retries, sc.rng[0], sc.rng[1], sc.rwnd, sc.reqs.len());
         cases.push(Case { try_unbounded: false, max_k: u32::MAX, label, exec: Box::new(move |r| exec_two(&sc, r)) });
     }
+    // every draw script of length L over {0, 1, 2}: side 0 opens two streams at once, side 1 opens one with draws 1, 2
+    // (ids collide across the sides, zero draws and draws of the side's own pending/live ids appear in every order)
+    let l = if thorough { 5 } else { 4 };
+    for code in 0..3u32.pow(l) {
+        let script: Vec<u32> = (0..l).map(|i| code / 3u32.pow(i) % 3).collect();
+        for with_b in [true, false] {
+            if !with_b && !thorough && script[0] != 0 && script[1] != 0 {
+                continue; // quick tier: the one-sided variant only for scripts with an early zero draw
+            }
+            let mut reqs = vec![Req { tag: 1, side: 0, host: b"A1".to_vec(), port: 1 }, Req { tag: 2, side: 0, host: b"A2".to_vec(), port: 2 }];
+            if with_b {
+                reqs.push(Req { tag: 3, side: 1, host: b"B".to_vec(), port: 3 });
+            }
+            let sc = Scn { name: "enumerated draws", rng: [script.clone(), vec![1, 2]], retries: 3, rwnd: [2, 2], reqs };
+            let label = format!("{} | retries=3 rngA={:?} rngB=[1, 2] requests={}", sc.name, sc.rng[0], sc.reqs.len());
+            cases.push(Case { try_unbounded: false, max_k: if thorough { 2 } else { 1 }, label, exec: Box::new(move |r| exec_two(&sc, r)) });
+        }
+    }
     for retries in 1..=3usize {
         for reject in 0..=3usize {
             for then_accept in [false, true] {
-                for script in [vec![4u32, 4, 4, 4], vec![0, 1, 0, 2, 3], vec![]] {
+                let mut scripts = vec![vec![4u32, 4, 4, 4], vec![0, 1, 0, 2, 3], vec![]];
+                // every draw script of length 3 over {0, 4, 5}
+                scripts.extend((0..27u32).map(|c| (0..3).map(|i| [0u32, 4, 5][(c / 3u32.pow(i) % 3) as usize]).collect::<Vec<u32>>()));
+                for script in scripts {
                     let label = format!("raw peer rejects {reject} then {} | retries={retries} rng={script:?}", if then_accept { "accepts" } else { "stays silent" });
                     let sc2 = script.clone();
                     if !then_accept && reject < retries {
@@ -461,7 +509,7 @@ pub fn run(args: &Args) -> Report {
         adaptive: thorough,
         witness_names: &[("zero_draw_skipped", W_ZERO_SKIPPED), ("live_id_draw_skipped", W_LIVE_SKIPPED), ("id_collision_and_retry", W_COLLISION), ("gave_up_with_FlowIdRejected", W_REJECTED_GAVE_UP), ("retry_succeeded", W_RETRY_SUCCEEDED), ("all_requests_paired", W_ALL_PAIRED)],
     };
-    rep.rule = "psim: two real endpoints with scripted flow-id generators (first draw 0, draw of a live id, identical draws on both sides, repeated collisions), concurrent opens from both sides, hosts {empty, 255 bytes >= 0x80, binary} and ports {0,1,65535}, every schedule <= k deviations; plus a raw peer rejecting 0..3 proposals then accepting/silent, for max_flow_id_retries 1..3. Oracle: successful requests pair 1:1 with accepted streams carrying exactly the requested host/port and tagged data end to end; send credit at hand-out equals the other side's window (hook); no Connect with id 0 / a live id on the wire; failures only as FlowIdRejected after exactly max_flow_id_retries Connects; nothing pending, tables empty at the end".into();
+    rep.rule = "psim: two real endpoints with scripted flow-id generators (first draw 0, draw of a live id, identical draws on both sides, repeated collisions; plus EVERY draw script of length 4 (thorough 5) over {0,1,2} for two simultaneous opens on one side against an opener drawing 1,2 on the other, and every script of length 3 over {0,4,5} against the raw peer), concurrent opens from both sides, hosts {empty, 255 bytes >= 0x80, binary} and ports {0,1,65535}, every schedule <= k deviations; plus a raw peer rejecting 0..3 proposals then accepting/silent, for max_flow_id_retries 1..3. Oracle: successful requests pair 1:1 with accepted streams carrying exactly the requested host/port and tagged data end to end; send credit at hand-out equals the other side's window (hook); no Connect with id 0 / a live id on the wire; failures only as FlowIdRejected after exactly max_flow_id_retries Connects; nothing pending, tables empty at the end".into();
     rep.assumptions = vec!["allocation races inside one poll (two threads in insert_new_flow) are not visible at poll granularity; they are covered by the loom model m7 (run by this check as well)".into()];
     run_cases(args, &mut rep, cases, &plan);
     rep
